@@ -331,6 +331,26 @@ def run_case(case, R):
             for each in objs:
                 released(each, name)
 
+        # "32 random bytes": two key files created after the application re-seeded the process-wide PRNG with the same
+        # value must still differ
+        import random
+        prng_state = random.getstate()
+        try:
+            made = []
+            for n in (0, 1):
+                random.seed(20240917)
+                fresh_path = os.path.join(d, "keys", "fresh%d.key" % n)
+                with cc.KeyFile(fresh_path):
+                    pass
+                with open(fresh_path, "rb") as fp:
+                    made.append(fp.read())
+        except Exception as exc:
+            made = exc
+        finally:
+            random.setstate(prng_state)
+        R.check(isinstance(made, list) and len(made[0]) == 32 and made[0] != made[1], "create-once", "prng-reseeded",
+                lambda: "two key files created after random.seed(k): %r" % (made,))
+
         for o in objs:
             while o.depth > 0:
                 o.real.__exit__(None, None, None)
